@@ -6,7 +6,7 @@ from .. import engine as E
 from .. import catalogue as K
 from .. import speccheck as S
 
-THEOREMS = []
+THEOREMS = ["c08_missing_state_iff", "c08_selected_by_own_key", "c08_missing_reports", "c08_struct_runs_fields"]
 
 
 def run(ctx, H):
